@@ -24,7 +24,7 @@ static HOOK_SET: AtomicBool = AtomicBool::new(false);
 
 fn memfd(name: &str) -> RawFd {
     let cname = std::ffi::CString::new(name).unwrap();
-    let fd = unsafe { libc::memfd_create(cname.as_ptr(), 0) };
+    let fd = unsafe { libc::memfd_create(cname.as_ptr(), libc::MFD_CLOEXEC) };
     assert!(fd >= 0, "memfd_create failed");
     fd
 }
@@ -36,15 +36,15 @@ pub fn install_redirect() {
         return;
     }
     unsafe {
-        let log = libc::dup(2);
+        let log = libc::fcntl(2, libc::F_DUPFD_CLOEXEC, 3);
         let fin = memfd("verif-stdin");
         let fout = memfd("verif-stdout");
         let ferr = memfd("verif-stderr");
         // separate descriptions for the harness side, so that file offsets are independent
         let path = |fd: RawFd| std::ffi::CString::new(format!("/proc/self/fd/{fd}")).unwrap();
-        let stdin_w = libc::open(path(fin).as_ptr(), libc::O_WRONLY | libc::O_APPEND);
-        let stdout_r = libc::open(path(fout).as_ptr(), libc::O_RDONLY);
-        let stderr_r = libc::open(path(ferr).as_ptr(), libc::O_RDONLY);
+        let stdin_w = libc::open(path(fin).as_ptr(), libc::O_WRONLY | libc::O_APPEND | libc::O_CLOEXEC);
+        let stdout_r = libc::open(path(fout).as_ptr(), libc::O_RDONLY | libc::O_CLOEXEC);
+        let stderr_r = libc::open(path(ferr).as_ptr(), libc::O_RDONLY | libc::O_CLOEXEC);
         assert!(stdin_w >= 0 && stdout_r >= 0 && stderr_r >= 0);
         assert!(libc::dup2(fin, 0) == 0);
         assert!(libc::dup2(fout, 1) == 1);
@@ -220,13 +220,27 @@ pub fn guarded<R>(f: impl FnOnce() -> R) -> (Option<R>, Stop) {
 /// Run `f` on a fresh thread (clean thread-locals: symbol table, features, minimal flag, line
 /// tracker), with the miette handler `main.rs` installs.
 pub fn fresh_thread<R: Send + 'static>(f: impl FnOnce() -> R + Send + 'static) -> Result<R, String> {
+    let (tx, rx) = std::sync::mpsc::channel::<()>();
     let handle = std::thread::Builder::new()
         .stack_size(16 << 20)
         .spawn(move || {
             install_miette();
-            f()
+            let r = f();
+            let _ = tx.send(());
+            r
         })
         .expect("spawn case thread");
+    // A case thread that neither finishes nor dies (blocked on a lock, say) cannot be killed: the
+    // worker gives up with a distinct exit status; the master reports that as INCONCLUSIVE (what
+    // had been found before is in the part file). Infrastructure, never a verdict.
+    let limit = std::env::var("VERIF_CASE_LIMIT_S").ok().and_then(|s| s.parse().ok()).unwrap_or(300u64);
+    match rx.recv_timeout(std::time::Duration::from_secs(limit)) {
+        Ok(()) | Err(std::sync::mpsc::RecvTimeoutError::Disconnected) => {}
+        Err(std::sync::mpsc::RecvTimeoutError::Timeout) => {
+            log(&format!("harness: a case has not come back for {limit} s (thread blocked?); this worker gives up"));
+            std::process::exit(86);
+        }
+    }
     handle.join().map_err(|p| {
         if let Some(s) = p.downcast_ref::<&str>() {
             s.to_string()
